@@ -183,6 +183,7 @@ class Interp:
         #   "continue"  -> outcome 'crashed:<Exc>@<frame>', history goes on (state must stay consistent)
         #   "stop"      -> outcome 'crashed:...', remaining ops are not executed (self.stopped = True)
         self.crash = crash
+        self.slides_accessed = False  # since the deck was (re)opened
         self.stopped = False
         self.crashes = []
         self.prs = prs
@@ -194,6 +195,7 @@ class Interp:
 
     # -------------------------------------------------------------- selection
     def slides(self):
+        self.slides_accessed = True
         return list(self.prs.slides)
 
     def slide(self, i):
@@ -818,6 +820,7 @@ class Interp:
         def f():
             sh.click_action.hyperlink.address = None if url_i < 0 else URLS[url_i]
         info.update(slide=sl, target=sh)
+        info.setdefault("targets", []).append(sh)
         return self._call("hyperlink", f, (TypeError,) if type(sh).__name__ == "GroupShape" else ())
 
     def op_run_hyperlink(self, info, slide_i, shape_i, url_i):
@@ -834,6 +837,7 @@ class Interp:
                 r.text = "link"
             r.hyperlink.address = None if url_i < 0 else URLS[url_i]
         info.update(slide=sl, target=sh)
+        info.setdefault("targets", []).append(sh)
         return self._call("run_hyperlink", f)
 
     def op_link_burst(self, info, slide_i, items):
@@ -855,6 +859,7 @@ class Interp:
         def f():
             sh.click_action.target_slide = None if slide_j < 0 else self.slide(slide_j)
         info.update(slide=sl, target=sh)
+        info.setdefault("targets", []).append(sh)
         return self._call("target_slide", f)
 
     def op_notes(self, info, slide_i, text_i):
@@ -1017,6 +1022,7 @@ class Interp:
         self.op_save(info)
         with sut("op:reopen"):
             self.prs = Presentation(io.BytesIO(self.last_saved))
+        self.slides_accessed = False
         info["reopened"] = True
         for h in self.hooks:
             if hasattr(h, "at_reopen"):
